@@ -125,6 +125,7 @@ def write_replays(prop, m, new, tier, seed):
         body = {"property": prop, "clause": d["clause"], "key": d["key"],
                 "kind": d["kind"], "params": d["params"],
                 "detail": d["detail"], "tier": tier, "seed": seed,
+                "preceding": d.get("preceding", []),
                 "shard": d["shard"], "repo_head": head,
                 "pymeeus_sha256": digest, "count_in_run": new[ck]}
         h = hashlib.sha1(json.dumps(body, sort_keys=True).encode())
@@ -149,6 +150,24 @@ def do_replay(prop, mod, path, known):
         mod.replay(mon, body["kind"], body["params"])
     else:
         mod.CASES[body["kind"]](mon, *body["params"])
+    def one(kind, params):
+        mon.begin(kind, params)
+        if hasattr(mod, "replay"):
+            mod.replay(mon, kind, params)
+        else:
+            mod.CASES[kind](mon, *params)
+    if not mon.devs and body.get("preceding"):
+        # not reproduced alone: the deviation may depend on what was executed
+        # before it in the same process
+        print("replay: not reproduced by the case alone; re-running it "
+              "after the %d cases that preceded it" % len(body["preceding"]))
+        mon = Monitor(prop, "replay")
+        for kind, params in body["preceding"]:
+            try:
+                one(kind, params)
+            except Exception as ex:
+                print("replay: preceding case raised %r" % (ex,))
+        one(body["kind"], body["params"])
     m = merge([dict(mon.to_dict(), status="done")])
     new, seen_known = decide(prop, mod, m, known)
     for d in mon.devs:
